@@ -94,6 +94,7 @@ def run(ctx):
                       '%s: result of %s (convention %s, classes %s) — %s: %s at line %d' % (
                           v['kind'], show(c)[:70], s['conv'], mask_str(s['mask']),
                           {'to-success': 'a failure can reach a success exit of ' + fn.name,
+                           'short-exit': 'a positive short read() is taken for end of file',
                            'short-use': 'short read not handled',
                            'short-write': 'a short write can reach a success exit of ' + fn.name}[v['kind']],
                           v['what'], getattr(w, 'line', 0)),
